@@ -18,6 +18,7 @@ structure St where
   pol : List (Nat × Policy) := []
   handlers : List (Nat × Handler) := []
   authz : Option (List (String × List String)) := none    -- perm ↦ allowed users ("*" = anyone)
+  base : Option Policy := none     -- the server's base SecurityConfig: in force for a command without a policy of its own
   sess : Option Sess := none
   deriving Inhabited
 
@@ -33,7 +34,9 @@ def lvlOf (s : String) : String :=
 
 def mkServer (st : St) : Server :=
   { handlers := st.handlers
-    policyFor := fun c => st.pol.lookup c
+    policyFor := fun c => match st.pol.lookup c with
+      | some p => some p
+      | none => st.base
     authorizer := st.authz.map (fun tbl => fun perm user =>
       match tbl.lookup perm with
       | some us => us.contains "*" || us.contains user
@@ -57,7 +60,7 @@ def doConn (st : St) (toks : List String) (resumed : Bool) : St × String :=
       let sessR : Option Sess :=
         if resumed then st.sess
         else
-          let p := (st.pol.lookup f).getD ⟨lvlOptional, lvlOptional, lvlOptional⟩
+          let p := (st.pol.lookup f).getD (st.base.getD ⟨lvlOptional, lvlOptional, lvlOptional⟩)
           let c : ClientCfg := { auth := lvlOf ca, enc := lvlOf ce, integ := lvlOptional, methods := lst cm, ciphers := lst cc }
           match (honestRun c (srvCfg p) (fun m => m == "CLAIMTOBE") (str user) "sid").server with
           | .ok o => some ⟨o.reportedAuth, o.reportedEnc, o.user⟩
@@ -66,7 +69,16 @@ def doConn (st : St) (toks : List String) (resumed : Bool) : St × String :=
       | none => ({ st with sess := none }, "ok hs-failed")
       | some sess =>
         let evs := srv.serveAuth sess (fun c => keepL.contains c) f (nats follow)
-        ({ st with sess := some sess }, s!"ok a={if sess.authenticated then 1 else 0} e={if sess.encrypted then 1 else 0} {showEvs evs}")
+        -- the post-auth advertisement of a FULL handshake: postAuthPolicy's list; without an authorizer
+        -- the security layer advertises just the negotiated command
+        let vc : List Nat := if resumed then [] else
+          match srv.authorizer with
+          | none => [f]
+          | some _ =>
+            -- createPostAuthAd: an empty list from the policy leaves the default (the negotiated command)
+            if (srv.validCommands sess).isEmpty then [f] else ((srv.validCommands sess).toArray.qsort (· < ·)).toList
+        let vcs := if vc.isEmpty then "-" else ",".intercalate (vc.map toString)
+        ({ st with sess := some sess }, s!"ok a={if sess.authenticated then 1 else 0} e={if sess.encrypted then 1 else 0} vc={vcs} {showEvs evs}")
   | _, _, _, _, _, _, _, _ => (st, "bad-op")
 
 def step (st : St) (toks : List String) : St × String :=
@@ -94,7 +106,12 @@ def step (st : St) (toks : List String) : St × String :=
           | _ => none))
       -- `reconfig`: the server's policy function and authorizer change between connections; the
       -- cached session survives
-      ({ pol := pols, handlers := hs, authz := az, sess := if toks.head? == some "reconfig" then st.sess else none }, "ok")
+      let base : Option Policy := match g "base" with
+        | some b => match b.splitOn "/" with
+          | [a, en, i] => some ⟨lvlOf a, lvlOf en, lvlOf i⟩
+          | _ => none
+        | none => none
+      ({ pol := pols, handlers := hs, authz := az, base := base, sess := if toks.head? == some "reconfig" then st.sess else none }, "ok")
     | _, _, _, _ => (st, "bad-op")
   | "conn" :: _ => doConn st toks false
   | "reconn" :: _ => doConn st toks ((g "resumed") == some "1")
